@@ -117,7 +117,7 @@ Proof.
   - (* group *)
     cbn [rep] in R. destruct t as [| | | |b i k a]; try contradiction. destruct b; try contradiction. destruct R as (-> & Rx).
     assert (H : inl_spec c (EGroup e) (NGroup BRound i off a)).
-    { apply step_group. apply (IHe F (paren_ok_group _ P) _ _ Rx (dn_group _ _ _ _ D)). eapply at_off_group; eauto. }
+    { apply step_group. apply (IHe G (paren_ok_group _ P) _ _ Rx (dn_group _ _ _ _ D)). eapply at_off_group; eauto. }
     split; [exact H|apply chain_of_plain; [reflexivity|exact H]].
   - (* conditional *)
     destruct (paren_ok_binary (ECond neg e1 e2) _ _ _ eq_refl P) as [P1 P2].
@@ -137,6 +137,15 @@ Proof.
     assert (Hch : chain_spec c (EElse e1 e2) (NBin i (hdef (EElse e1 e2)) k tl tr)) by (apply step_else_chain; assumption).
     split; [|exact Hch].
     intros rj lk cond s ob jb Hc. rewrite (Hc eq_refl). apply step_else. exact Hch.
+  - (* sequence *)
+    destruct s; [|discriminate].
+    destruct (paren_ok_binary (ESeq Semi e1 e2) _ _ _ eq_refl P) as [P1 P2].
+    destruct (at_off_binary toks off (ESeq Semi e1 e2) _ _ _ eq_refl A) as [A1 A2].
+    cbn [rep] in R. destruct t as [| | |i d k tl tr|]; try contradiction. destruct R as (-> & _ & R1 & R2).
+    destruct (dn_bin _ _ _ _ _ D) as [D1 D2].
+    assert (H : inl_spec c (ESeq Semi e1 e2) (NBin i (hdef (ESeq Semi e1 e2)) k tl tr)).
+    { apply step_seq; [apply (IHe1 G0 P1 _ _ R1 D1 A1)|apply (IHe2 G P2 _ _ R2 D2 A2)]. }
+    split; [exact H|apply chain_of_plain; [reflexivity|exact H]].
   - (* nested expression *)
     cbn [rep] in R. destruct t as [| | | |b i k a]; try contradiction. destruct b; try contradiction. destruct R as (-> & Rx).
     assert (H : inl_spec c (ENested label e) (NGroup BCurly i off a)).
